@@ -56,6 +56,8 @@ class Harness:
     tol = 1e-9
     depth = 2
     policy = COARSE
+    expand_limit = None  # at most this many states expanded per BFS level
+    edgewise = True  # detailed balance / connectivity layer applies
 
     def key(self, s):
         raise NotImplementedError
@@ -192,9 +194,11 @@ class GCH(Harness):
 
     tol = 1e-7
 
-    def __init__(self, nmax=2, T=300.0, lam=1.5, with_disp=False):
+    def __init__(self, nmax=2, T=300.0, lam=1.5, with_disp=False, sites=3):
         self.nmax, self.T, self.lam = nmax, T, lam
-        self.name = "muvt/atoms" + ("/with-displacement" if with_disp else "")
+        if sites == 2:  # 8 insertion sites instead of 27
+            self.policy = {**COARSE, "uniform_q": (0.25, 0.75)}
+        self.name = f"muvt/atoms/{sites ** 3}-sites" + ("/with-displacement" if with_disp else "")
         self.L = 6.0
         self.V = self.L**3
         self.mass = 39.948
@@ -244,6 +248,54 @@ class GCH(Harness):
 
     def inside(self, s):
         return len(np.asarray(s).reshape(-1, 3)) <= self.nmax
+
+
+class GCMolH(GCH):
+    """Molecular exchange (diatomic, Translation + Rotation): conformance, update and Markov
+    layers only (the orientation menu is not an equal-probability lattice; the orientation law is
+    judged on fine grids, L2)."""
+
+    edgewise = False
+    expand_limit = 2
+
+    def __init__(self, T=300.0, lam=1.2, sites=2):
+        super().__init__(nmax=1, T=T, lam=lam, sites=sites)
+        self.name = "muvt/diatomic"
+        self.mass = 2 * 1.008
+        self.mu = kB * T * math.log(lam * lam_cubed(self.mass, T) / self.V)
+        self.spec = dict(ens="GrandCanonical", atoms="M1", table=[["e", "E_transrot"]], T=T, mu=self.mu, calc="zero", labels=[-1, 0, 0])
+        self.state0 = np.zeros((0, 3))
+
+    def set_state(self, sysm, s):
+        from ase.atoms import Atoms
+
+        s = np.asarray(s, dtype=float).reshape(-1, 3)
+        atoms = sysm.atoms
+        del atoms[list(range(len(atoms)))]
+        atoms.extend(Atoms("Cu", positions=[[0.5, 0.5, 0.5]]))
+        if len(s) > 1:
+            atoms.extend(Atoms("H" * (len(s) - 1), positions=s[1:]))
+        nmol = (len(atoms) - 1) // 2
+        sysm.mc.number_of_exchange_particles = nmol
+        for m in sysm.leaves:
+            m.set_labels(np.array([-1] + [i // 2 for i in range(2 * nmol)]))
+
+    def key(self, s):
+        s = np.asarray(s, dtype=float).reshape(-1, 3)
+        return tuple(tuple(np.round(r, 6) + 0.0) for r in s)
+
+    def log_ratio(self, x, y, ac):
+        nx_ = (len(np.asarray(x).reshape(-1, 3)) - 1) // 2 if len(np.asarray(x).reshape(-1, 3)) else 0
+        ny = (len(np.asarray(y).reshape(-1, 3)) - 1) // 2
+        L3 = lam_cubed(self.mass, self.T)
+        if ny == nx_ + 1:
+            return math.log(self.V / (L3 * (nx_ + 1))) + self.mu / (kB * self.T)
+        if ny == nx_ - 1:
+            return math.log(L3 * nx_ / self.V) - self.mu / (kB * self.T)
+        return 0.0
+
+    def inside(self, s):
+        return len(np.asarray(s).reshape(-1, 3)) <= 3
 
 
 # ---------------------------------------------------------------------------------- kernel enumeration
@@ -303,6 +355,9 @@ def explore_harness(arg):
     total_states = 0
     while frontier and level <= h.depth:
         nxt = []
+        if h.expand_limit is not None and len(frontier) > h.expand_limit:
+            step = len(frontier) / h.expand_limit
+            frontier = [frontier[int(i * step)] for i in range(h.expand_limit)]
         for s in frontier:
             ks = h.key(s)
             if ks in P or not h.inside(s):
@@ -354,42 +409,64 @@ def explore_harness(arg):
             total_states += 1
         frontier = nxt
         level += 1
-    # ---- 3. Markov property: two live trials vs fresh kernel at the intermediate state
+    # ---- 3. Markov property: a second live trial vs the fresh kernel at the intermediate state.
+    # Representatives of the first trial (each verdict, distinct post-states) are taken from the
+    # one-trial kernel of the initial state; below each of them EVERY second trial is enumerated.
     if arg.get("markov", True):
-        execs2, st2 = enumerate_kernel(h, h.state0, policy, 2)
-        counters["executions"] += st2.executions
-        by_mid: dict = {}
-        exact_states: dict = {}
-        for rec in execs2:
-            if len(rec) < 2 or "error" in rec[0] or "error" in rec[1]:
+        first, _ = enumerate_kernel(h, h.state0, policy, 1)
+        reps, seen_rep = [], set()
+        for want in (True, False, None):
+            for rec in first:
+                if rec and "error" not in rec[0] and rec[0]["verdict"] is want:
+                    kk = (want, h.key(rec[0]["post"]))
+                    if kk not in seen_rep and sum(1 for r_ in reps if r_[0]["verdict"] is want) < arg.get("markov_reps", 3):
+                        seen_rep.add(kk)
+                        reps.append(rec)
+        for rec0 in reps:
+            prefix = rec0[0]["choices"]
+
+            def setup(sysm, st=h.state0):
+                h.set_state(sysm, st)
+
+            def run2(ch):
+                sysm, trials = execute(h.spec, ch, 2, policy, setup=setup)
+                sysm.close()
+                return trials
+
+            live = {}
+            mid_state = None
+            st2 = Stats()
+            for ch, trials in explore(run2, stats=st2, root_prefix=prefix):
+                if len(trials) < 2 or trials[0].error or trials[1].error:
+                    continue
+                t1, t2 = trials
+                mid_state = h.state_of(arr(t1.post["arrays"]["positions"]), arr(t1.post["cell"]), t1.post["n"])
+                w = 1.0
+                for pnt in ch.trace:
+                    if pnt.seg == t2.seg:
+                        w *= pnt.weight
+                post2 = h.state_of(arr(t2.post["arrays"]["positions"]), arr(t2.post["cell"]), t2.post["n"])
+                k = (ch.segments().get(t2.seg, ()), None if (t2.at_criteria is None or not t2.thresholds) else float(f"{t2.thresholds[-1]:.9g}"), repr(t2.verdict), h.key(post2))
+                live[k] = w
+            counters["executions"] += st2.executions
+            if mid_state is None:
                 continue
-            exact = np.asarray(rec[0]["post"], dtype=float)
-            mid = (exact.shape, exact.tobytes())  # the exact concrete state, not its canonical form
-            exact_states[mid] = rec[0]["post"]
-            by_mid.setdefault((mid, rec[0]["verdict"]), {})
-            r = rec[1]
-            k = (r["seg"], None if r["t"] is None else float(f"{r['t']:.9g}"), repr(r["verdict"]), h.key(r["post"]))
-            by_mid[(mid, rec[0]["verdict"])][k] = r["w"]
-        fresh_cache = {}
-        for (mid, v1), live in by_mid.items():
-            if mid not in fresh_cache:
-                ex, st3 = enumerate_kernel(h, exact_states[mid], policy, 1)
-                counters["executions"] += st3.executions
-                fk = {}
-                for rec in ex:
-                    if rec and "error" not in rec[0]:
-                        r = rec[0]
-                        fk[(r["seg"], None if r["t"] is None else float(f"{r['t']:.9g}"), repr(r["verdict"]), h.key(r["post"]))] = r["w"]
-                fresh_cache[mid] = fk
+            ex, st3 = enumerate_kernel(h, mid_state, policy, 1)
+            counters["executions"] += st3.executions
+            fk = {}
+            for rec in ex:
+                if rec and "error" not in rec[0]:
+                    r = rec[0]
+                    fk[(r["seg"], None if r["t"] is None else float(f"{r['t']:.9g}"), repr(r["verdict"]), h.key(r["post"]))] = r["w"]
             counters["markov_comparisons"] += 1
-            fk = fresh_cache[mid]
+            v1 = rec0[0]["verdict"]
             if set(fk) != set(live) or any(abs(fk[k] - live[k]) > 1e-12 for k in fk):
                 diff = sorted(set(fk) ^ set(live), key=repr)[:2]
-                V(f"kernel-depends-on-history/after-{ {True: 'accepted', False: 'rejected', None: 'failed'}.get(v1, v1)}-trial", f"the behaviour of a trial following a {v1} trial differs from a fresh simulation at the same state {js(exact_states[mid])}: e.g. {js(diff)}")
+                V(f"kernel-depends-on-history/after-{ {True: 'accepted', False: 'rejected', None: 'failed'}.get(v1, v1)}-trial", f"the behaviour of a trial following a {v1} trial differs from a fresh simulation at the same state {js(mid_state)}: e.g. {js(diff)}")
     # ---- 4. detailed balance on edges between expanded states (menu closure checked through the kernel with zero potential is implied by symmetric flows)
     K = None
     if isinstance(h, GCH):
-        K = len(Policy(**COARSE).uniform(0, 1, (1, 3)))
+        K = len(Policy(**h.policy).uniform(0, 1, (1, 3)))
     lp = (lambda s: h.log_pi(s, K)) if isinstance(h, GCH) else h.log_pi
     G = nx.DiGraph()
     for a, row in P.items():
@@ -397,6 +474,8 @@ def explore_harness(arg):
             if p > 0:
                 G.add_edge(a, b)
     db_bad = 0
+    if not h.edgewise:
+        P_edges, P = P, {}
     same_dim = not isinstance(h, GCH)
     menu_symmetric = True
     for a, row in P.items():
@@ -417,7 +496,9 @@ def explore_harness(arg):
                 db_bad += 1
                 if db_bad <= 2:
                     V("detailed-balance-violated", f"pi(x)P(x->y) = exp({fa:.9g}) but pi(y)P(y->x) = exp({fb:.9g}) for x={js(a)} y={js(b)} (P={p:.6g}, back={back:.6g})")
-    expanded = set(P)
+    if not h.edgewise:
+        P = P_edges
+    expanded = set(P) if h.edgewise else set()
     sub = G.subgraph(expanded)
     if len(expanded) > 1:
         if nx.number_strongly_connected_components(sub) != 1:
@@ -451,6 +532,13 @@ def explore_harness(arg):
 
 
 def make_harness(arg):
+    h = _make_harness(arg)
+    if "expand_limit" in arg:
+        h.expand_limit = arg["expand_limit"]
+    return h
+
+
+def _make_harness(arg):
     k = arg["kind"]
     if k == "harmonic":
         return HarmonicH(arg["n"], arg["op"], depth=arg.get("depth", 2), table=arg.get("table"))
@@ -459,7 +547,9 @@ def make_harness(arg):
     if k == "npt":
         return NPTH(arg["n"], kmax=arg.get("kmax", 4), with_disp=arg.get("with_disp", False))
     if k == "muvt":
-        return GCH(arg.get("nmax", 2), with_disp=arg.get("with_disp", False))
+        return GCH(arg.get("nmax", 2), with_disp=arg.get("with_disp", False), sites=arg.get("sites", 3))
+    if k == "muvt-mol":
+        return GCMolH(sites=arg.get("sites", 2))
     raise ValueError(k)
 
 
@@ -555,18 +645,23 @@ def harness_args(tier):
     a.append({"kind": "harmonic", "n": 1, "op": "ball", "depth": 1 if tier == "quick" else 2})
     a.append({"kind": "dipole", "x": 2.0})
     a.append({"kind": "npt", "n": 1})
-    a.append({"kind": "muvt", "nmax": 2})
+    a.append({"kind": "muvt", "nmax": 3 if tier == "thorough" else 2, "sites": 2})
+    a.append({"kind": "muvt-mol", "markov_reps": 1})
+    a.append({"kind": "harmonic", "n": 1, "op": "sphere", "depth": 1})
+    a.append({"kind": "harmonic", "n": 2, "op": "box*2", "depth": 0, "table": [["d", "D_box*2"]], "markov_reps": 1})
+    a.append({"kind": "npt", "n": 2, "kmax": 3})
     if tier == "thorough":
         a.append({"kind": "harmonic", "n": 1, "op": "sphere", "depth": 2})
         a.append({"kind": "harmonic", "n": 1, "op": "ballbox", "depth": 1, "markov": False})
         a.append({"kind": "harmonic", "n": 2, "op": "box", "depth": 1})
-        a.append({"kind": "harmonic", "n": 2, "op": "box*2", "depth": 1, "table": [["d", "D_box*2"]], "markov": False})
+        a.append({"kind": "harmonic", "n": 2, "op": "box*2", "depth": 1, "table": [["d", "D_box*2"]], "markov_reps": 2, "expand_limit": 4})
         a.append({"kind": "dipole", "x": 0.5})
         a.append({"kind": "npt", "n": 2})
         a.append({"kind": "npt", "n": 3})
         a.append({"kind": "npt", "n": 2, "with_disp": True, "kmax": 2})
-        a.append({"kind": "muvt", "nmax": 3})
-        a.append({"kind": "muvt", "nmax": 2, "with_disp": True})
+        a.append({"kind": "muvt", "nmax": 2, "sites": 3})
+        a.append({"kind": "muvt", "nmax": 2, "with_disp": True, "sites": 2})
+        a.append({"kind": "muvt-mol", "sites": 3, "expand_limit": 4})
     return a
 
 
